@@ -47,12 +47,26 @@
                                                                  inband_host_faithful, inband_exit_admissible,
                                                                  inband_rc_any_chunking(_index), inband_end_to_end(_max)
                                                                  (composed with the relay model of C05/C06 and cbuf of C13)
+                                                                 through the REAL transport's handshake (xrcmd.c reads exactly one
+                                                                 status byte; Dsh/ExitHandshake.lean): rsh_handshake_any_chunking,
+                                                                 rsh_handshake_faithful (the marker survives sharing a read with
+                                                                 the status byte), rsh_buffered_handshake_witness (class C08-14)
+  "-S" x "-k" x a target that fails WITHOUT a return code        rsh_denied_Sk_exit1 (denied rsh target: failed, rc 0, yet -S -k
+                                                                 exits 1 wherever it stands; class C08-13), rsh_denied_S_exit254
   quantifier "or out-of-band (child wait status)"                exec_exit_admissible
   the whole statement, both channels                             faithful_exit_admissible
 
+  "a command that terminates abnormally never counts as          sigchld_ignored_status_lost / sigchld_ignored_exit0 (OPEN finding
+   success", started with SIGCHLD inherited as ignored            C08-SIGCHLD-IGNORED-STATUS-LOST: pipecmd_wait's waitpid fails, status
+                                                                 word 0: FALSE of the unchanged code for every command that ran),
+                                                                 sigchld_restored_faithful (repaired: dsh() restores SIG_DFL; the
+                                                                 channel is then exactly `execScript`, codes and signals survive)
+                                                                 (Dsh/ExitChld.lean; driven on the real binary by vlib/exitchld.py)
+
   NOT PROVED / NOT MODELLED:
-    * `pipecmd_wait` / `waitpid` (that exec_destroy blocks until the child is gone and returns its real status): real
-      children in the harness (`xd`, late-exit children) and the real binary, no theorem.
+    * `pipecmd_wait` / `waitpid`: that exec_destroy blocks until the child is gone (real children in the harness (`xd`,
+      late-exit children) and the real binary, no theorem); the status word it delivers is modelled only as far as the
+      disposition of SIGCHLD decides it (Dsh/ExitChld.lean: ECHILD leaves 0).
     * -k: the transition system of Dsh/ExitKill.lean is the fanout-UNCONSTRAINED one (any target may be started at any
       time); the executions of the real dispatcher are a subset, so the every-schedule theorems cover them, but "at most
       fanout siblings are in flight when the run is ended" is C04's statement, not repeated here.  Two threads calling
@@ -83,6 +97,8 @@ import PdshVerif.Dsh.FanExec
 import PdshVerif.Opt.Command
 import PdshVerif.Dsh.ExitKillLemmas
 import PdshVerif.Dsh.ExitRefuse
+import PdshVerif.Dsh.ExitChld
+import PdshVerif.Dsh.ExitHandshake
 
 namespace PdshVerif.C08
 open PdshVerif PdshVerif.Dsh PdshVerif.Dsh.Exit
@@ -285,6 +301,30 @@ theorem abnormal_nonzero (fx : Fixes) (hd7 : fx.d7 = true) (s : Nat) (h1 : 1 ≤
     have : s % 128 % 128 = s := by omega
     simp [this]
   exact ⟨hrc, by rw [hrc]; omega⟩
+
+/-- OPEN FINDING C08-SIGCHLD-IGNORED-STATUS-LOST, every variant of the other repairs: started with SIGCHLD inherited as
+    ignored (and dsh() not restoring the default), the code of EVERY target whose command ran is 0 — whatever it
+    returned, whichever signal killed it (`pipecmd_wait`: waitpid fails with ECHILD, the status word stays 0) -/
+theorem sigchld_ignored_status_lost (fx : Fixes) (e : ChldEnv) (h : e.ignored = true) (o : Outcome)
+    (hran : o ≠ .connectFailed) : (hostOf fx (execScriptChld fx e o)).rc = 0 :=
+  chld_ignored_status_lost fx e h o hran
+
+/-- ... so `pdsh -S` (and `-S -k`) exits 0 for a command that returned 3 or was killed by signal 9: FALSE of the
+    property text, in every variant -/
+theorem sigchld_ignored_exit0 (fx : Fixes) (e : ChldEnv) (h : e.ignored = true) (k : Bool) :
+    mainExit fx ⟨true, k⟩ (.started [hostOf fx (execScriptChld fx e (.exited 3))]) = 0 ∧
+    mainExit fx ⟨true, k⟩ (.started [hostOf fx (execScriptChld fx e (.killed 9))]) = 0 :=
+  chld_ignored_exit0 fx e h k
+
+/-- REPAIRED (dsh() restores SIG_DFL for SIGCHLD): whatever disposition was inherited, the out-of-band channel is
+    exactly the one all other theorems are about; a returned code c is the target's code, and (with D7) a signal s is
+    reported as 128+s -/
+theorem sigchld_restored_faithful (fx : Fixes) (e : ChldEnv) (hr : e.restored = true) :
+    (∀ o, execScriptChld fx e o = execScript fx o) ∧
+    (∀ c, c ≤ 255 → (hostOf fx (execScriptChld fx e (.exited c))).rc = c) ∧
+    (fx.d7 = true → ∀ s, 1 ≤ s → s ≤ 64 → (hostOf fx (execScriptChld fx e (.killed s))).rc = 128 + s) :=
+  ⟨execScriptChld_eq fx e (restored_not_ignored e hr), fun c hc => chld_restored_code fx e hr c hc,
+   fun hd7 s h1 h2 => chld_restored_abnormal_nonzero fx hd7 e hr s h1 h2⟩
 
 /-- FALSE of the unchanged code: the killed child counts as code 0; `pdsh -S` exits 0 and `-k` does not fire -/
 theorem abnormal_nonzero_unchanged_false :
@@ -960,5 +1000,56 @@ theorem kill_early_death_witness :
   decide
 
 end KillSchedules
+
+/-! ## the in-band channel through the real transport's handshake (Dsh/ExitHandshake.lean) -/
+
+/-- however the rsh server's answer (status byte, then the command's output) is cut into read()s, the relay is handed
+    the same bytes: xrcmd consumes exactly the status byte -/
+theorem rsh_handshake_any_chunking (cs₁ cs₂ : List Str) (h : cs₁.flatten = cs₂.flatten) :
+    afterHandshake cs₁ = afterHandshake cs₂ := handshake_any_chunking cs₁ cs₂ h
+
+/-- repaired in-band channel (D9 + LATE) BEHIND THE HANDSHAKE: for a command that ran, in every chunking of
+    `status byte 0 ++ output ++ marker line ++ later lines` -- the marker line sharing a read() with the status byte
+    included -- what the -S loop sees of the target is faithful to its outcome -/
+theorem rsh_handshake_faithful (fx : Fixes) (hd9 : fx.d9 = true) (hl : fx.late = true) (o : Outcome)
+    (hok : okOutcome o) (hran : ∃ n, o = .exited n ∨ o = .killed n) (x : InbandData) (hx : x.ok) (cs : List Str)
+    (hcs : cs.flatten = NUL :: (inbandScript x.out.flatten x.pre x.late.flatten o).stdout) :
+    Faithful o (hostOf fx (rshScript cs)) := by
+  have : rshScript cs = inbandScript x.out.flatten x.pre x.late.flatten o := by
+    obtain ⟨n, rfl | rfl⟩ := hran <;> exact rshScript_eq cs _ hcs rfl rfl rfl rfl
+  rw [this]
+  exact inband_host_faithful fx hd9 hl o hok x hx
+
+/-- the class of the seeded change C08-14: a handshake that keeps only the first byte of what one read() returned makes
+    the relayed bytes depend on the cut; the real one does not -/
+theorem rsh_buffered_handshake_witness :
+    ([[NUL, '3', NL]] : List Str).flatten = ([[NUL], ['3', NL]] : List Str).flatten ∧
+    afterHandshakeBuffered [[NUL, '3', NL]] = some [] ∧
+    afterHandshakeBuffered [[NUL], ['3', NL]] = some ['3', NL] ∧
+    afterHandshake [[NUL, '3', NL]] = some ['3', NL] ∧
+    afterHandshake [[NUL], ['3', NL]] = some ['3', NL] := buffered_depends_on_chunking
+
+/-- -S x -k x A TARGET THAT FAILS WITHOUT ANY RETURN CODE (a denied rsh target: state failed, rc 0): the run ends with 1,
+    with or without -S, wherever the target stands, in every chunking of the server's refusal (any variant) -/
+theorem rsh_denied_Sk_exit1 (fx : Fixes) (S : Bool) (cs : List Str) (c : Char) (txt : Str) (hc : c ≠ NUL)
+    (h : cs.flatten = c :: txt) (before after : List Host) :
+    (hostOf fx (rshScript cs)).rc = 0 ∧
+    mainExit fx ⟨S, true⟩ (.started (before ++ hostOf fx (rshScript cs) :: after)) = 1 := by
+  have hh := rshScript_denied fx cs c txt hc h
+  refine ⟨by rw [hh], ?_⟩
+  apply k_any_failure_nonzero
+  exact ⟨hostOf fx (rshScript cs), by simp, by rw [hh]; decide⟩
+
+/-- ... and with -S alone a denied target alone gives RC_FAILED (254) -/
+theorem rsh_denied_S_exit254 (fx : Fixes) (cs : List Str) (c : Char) (txt : Str) (hc : c ≠ NUL)
+    (h : cs.flatten = c :: txt) :
+    mainExit fx ⟨true, false⟩ (.started [hostOf fx (rshScript cs)]) = 254 := by
+  rw [rshScript_denied fx cs c txt hc h]
+  cases fx with
+  | mk d7 d8 d9 late canc => cases d7 <;> cases d8 <;> cases d9 <;> cases late <;> cases canc <;> decide
+
+/-- non-vacuity: a refusal `\x01 Permission denied.` cut into three pieces -/
+example : ([[Char.ofNat 1], ['P', 'e'], ['r', NL]] : List Str).flatten = Char.ofNat 1 :: ['P', 'e', 'r', NL] ∧
+    Char.ofNat 1 ≠ NUL := by decide
 
 end PdshVerif.C08
